@@ -279,8 +279,12 @@ def syncTracks (adps : List Adp) (ppk : Nat) : List Nat → List Adp
     if adps.any (fun a => a.period == ppk && a.track == t) then syncTracks adps ppk ts
     else syncTracks (adps ++ [{ pk := fresh (adps.map (·.pk)), period := ppk, track := t }]) ppk ts
 
-/-- `none`: the request is refused (unknown stream, no usable timing reference) -/
-def processPeriod (s : St) (mpsPk : Nat) (sp : PSpec) : Option St :=
+/-- One Period of a request.  `none`: the request is refused (unknown stream, no
+usable timing reference).  Otherwise the state with the Period created/updated
+and the missing AdaptationSet rows created, and the primary keys of the
+AdaptationSet rows of that Period the request no longer names
+(`unused_tracks`, deleted by the caller: `session.delete` is flushed later). -/
+def processPeriod (s : St) (mpsPk : Nat) (sp : PSpec) : Option (St × List Nat) :=
   let existing : Option Period :=
     match sp.pk with
     | some p => s.periods.find? (·.pk == p)
@@ -305,23 +309,35 @@ def processPeriod (s : St) (mpsPk : Nat) (sp : PSpec) : Option St :=
           | none => s.periods ++ [{ pk := ppk, pid := sp.pid, parent := mpsPk, stream := sp.stream,
                                     ordering := sp.ordering }]
         let adps1 := syncTracks s.adps ppk sp.tracks
-        let adps2 := adps1.filter (fun a => a.period != ppk || sp.tracks.contains a.track)
-        some { s with periods := periods', adps := adps2 }
+        let doomed := (adps1.filter (fun a => a.period == ppk && !sp.tracks.contains a.track)).map (·.pk)
+        some ({ s with periods := periods', adps := adps1 }, doomed)
 
-def processPeriods (s : St) (mpsPk : Nat) : List PSpec → Option St
-  | [] => some s
-  | sp :: rest =>
-    match processPeriod s mpsPk sp with
-    | none => none
-    | some s' => processPeriods s' mpsPk rest
+def dropAdps (s : St) (doomed : List Nat) : St :=
+  { s with adps := s.adps.filter (fun a => !doomed.contains a.pk) }
 
-/-- the UNIQUE constraints a commit can still violate (everything else is
+/-- the UNIQUE constraints a flush can still violate (everything else is
 excluded by an explicit check in the handler): Stream.directory,
 mp_stream.name, period(parent_pk, pid), adaptation_set(period_pk, track_id) -/
 def uniqOK (s : St) : Bool :=
   nodupB (s.streams.map (·.dir)) && nodupB (s.mps.map (·.name)) &&
   nodupB (s.periods.map (fun p => (p.parent, p.pid))) &&
   nodupB (s.adps.map (fun a => (a.period, a.track)))
+
+/-- all Periods of a request, in order.  `defer = false` (`AddStream.put`, autoflush
+active): the deletions of one Period are flushed before the next Period is
+processed.  `defer = true` (`EditStream.post` runs under `no_autoflush`): every
+INSERT is flushed before any DELETE, so new primary keys are allocated above the
+rows that are about to be deleted.  A UNIQUE constraint violated by the rows of
+one Period fails the request (IntegrityError at the flush). -/
+def processPeriods (defer : Bool) (s : St) (mpsPk : Nat) : List PSpec → List Nat → Option St
+  | [], doomed => some (dropAdps s doomed)
+  | sp :: rest, doomed =>
+    match processPeriod s mpsPk sp with
+    | none => none
+    | some (s', d) =>
+      if !uniqOK s' then none
+      else if defer then processPeriods defer s' mpsPk rest (doomed ++ d)
+      else processPeriods defer (dropAdps s' d) mpsPk rest doomed
 
 /-- commit `s'`, or fail with an IntegrityError and keep `s` -/
 def commit (s s' : St) : St × Res := if uniqOK s' then (s', .ok) else (s, .rej)
@@ -495,7 +511,7 @@ def addMps (s : St) (name title : String) (ps : List PSpec) : St × Res :=
   else
     let k := fresh (s.mps.map (·.pk))
     let s1 := { s with mps := s.mps ++ [{ pk := k, name := name, title := title }] }
-    match processPeriods s1 k ps with
+    match processPeriods false s1 k ps [] with
     | none => (s, .rej)
     | some s2 => commit s s2
 
@@ -509,7 +525,7 @@ def editMps (s : St) (urlName : String) (bodyPk : Option Nat) (name title : Stri
     else
       let s1 := { s with mps := s.mps.map (fun x =>
         if x.pk == m.pk then { x with name := name, title := title } else x) }
-      match processPeriods s1 m.pk ps with
+      match processPeriods true s1 m.pk ps [] with
       | none => (s, .rej)
       | some s2 => commit s s2
 
